@@ -173,6 +173,8 @@ func FilePath(r *rand.Rand, ok func(string) bool) string {
 
 var pathSoup = []string{"a", "b", "z", "A", "Z", "0", "1", "9", "-", ".", "_", "~", "+", "/", "/", "!", "#", "$", "%", "&", "(", ")", ",", "=", "@",
 	"[", "]", "^", "{", "}", " ", "\"", "'", "*", "<", ">", "?", "`", "|", "\\", ":", ";", "é", "世", "ß", "\xff", "\x00", "\u0301", "\u212a", "\u0663", "\ufffd", "\xc0\x80",
+	// non-letter runes whose LOW BYTE is an allowed ASCII punctuation character or letter (a byte(r) truncation would let them through)
+	"\u202e", "\u2028", "\u2029", "\u2025", "\u0323", "\uff20", "\u2020", "\u200b", "\u2061", "\u212e", "\u2030", "\u203d", "\u2e2e", "\u3000", "\u205f", "\U0001f600",
 	"v", "v2", "v1", "v0", "v02", "/v2", "/v1", ".v1", ".v2", ".v0", ".v", "-unstable", "com", "con", "CON", "nul", "Aux", "com1", "LPT9", "~1", "~12", "a~1",
 	"gopkg.in", "example.com", "github.com", "..", "x.y", "\t", "\n", "\x7f"}
 
